@@ -24,14 +24,37 @@ from . import chn_common as cc
 ID = "C04"
 MOD = "harness.props.c04"
 T = "MetadorModel.C04."
+B = "MetadorModel.Bridge.ChainCheck."
 LEAN = dict(
-    modules=["MetadorModel.Props.C04"],
+    modules=["MetadorModel.Props.C04", "MetadorModel.Bridge.ChainCheckUB", "MetadorModel.Bridge.ChainCheck"],
     theorems=[T + n for n in [
         "validate_ok_iff", "validate_perm", "rejected_iff", "tamper_rejected", "remove_inner_rejected", "remove_base_rejected",
         "foreign_rejected", "substitute_rejected", "fork_rejected", "dup_pid_rejected", "manifest_mismatch_rejected",
-        "remove_newest_accepted", "ub_damage_rejected", "ub_parse_iff"]],
+        "remove_newest_accepted", "ub_damage_rejected", "ub_parse_iff"]]
+    # translated tie (Gen/ChainCheck.lean is regenerated from the source on every run, see translate_c04.py)
+    + [B + n for n in [
+        "gen_user_block_size", "gen_ublock_file", "gen_ublock_int", "gen_ih5_uuid", "gen_check_ublock", "gen_check_ublock_mf",
+        "gen_dispatch_check_ublock", "gen_open_core", "gen_IH5Record_open", "gen_IH5MFRecord_open",
+        "gen_open_ok_iff_coherent", "gen_mf_open_ok_iff_coherent", "gen_open_defaults"]],
     drivers=["drv_chn"],
 )
+
+
+def translate(ctx):
+    """regenerate Gen/ChainCheck.lean from the current source (`IH5Record._ublock`, `ih5_uuid`, `_check_ublock`,
+    `_open`, `IH5MFRecord._check_ublock`, `_open`); the bridge modules prove it equal to Model/Chain.lean"""
+    from .. import translate_c04
+    ctx.trusted.append("harness/translate_c04.py (Python ast -> Lean) for IH5Record._ublock/ih5_uuid/_check_ublock/_open and "
+                       "IH5MFRecord._check_ublock/_open, with its value dictionary lean/MetadorModel/Py/ChainPy.lean; "
+                       "bridge theorems (Bridge/ChainCheckUB.lean, Bridge/ChainCheck.lean) re-checked on every run")
+    try:
+        return translate_c04.write(lean)
+    except translate_c04.TranslateError:
+        raise  # what could be translated has been written; the bridge modules of the rest fail to build
+    except Exception as e:  # noqa: BLE001
+        # leave no text of an earlier run (possibly of another tree) behind
+        translate_c04.write_stub(lean, "%s: %s" % (type(e).__name__, e))
+        raise
 
 MUST_FAIL, MUST_OPEN, ANY = "fail", "ok", "any"
 
